@@ -191,7 +191,7 @@ CLAIMED = {
         "put together from the models each pass has): module_connections_preserved — whenever the composition returns a module it declares the module's signals, has the designer's "
         "instances in order with their targets and parameters, and on every port of every instance the netlisters read, bit i for bit i, the signal bits the designer's expression denotes "
         "(any nesting, step, sign), with no hypothesis about intermediate states; the composition itself is compared with elaborate + to_proto by the module_pipe stream (random F1 modules "
-        "with planted faults: accepted vs refused, signal and port lists, instances, the bits read per connection); design_connections_preserved — the same for every module of an F1 design put through pipelineDesign "
+        "with planted faults: accepted vs refused, signal and port lists, instances, the bits read per connection); array_elements_read_their_bits — ArrayFlattener inside the composition (pipelineA): element k of an instance array is exported under the name the pass gave it and reads, per port, all of the connection (broadcast) or its k-th w bits (array_pipe stream); design_connections_preserved — the same for every module of an F1 design put through pipelineDesign "
         "(children first, each module against what the package holds so far), compared module by module with the real package by the design_pipe stream.",
         note="Sem.src / Sem.pkg / the net solver are specifications executed by the driver (Design.lean, Pkg.lean, Nets.lean); the "
         "pass-by-pass preservation theorems for F3 (bundles, pairs, hierarchy) are not proved. vlsirtools' positional reading is modelled and validated "
